@@ -93,19 +93,19 @@ def mc_dd_part(chk, w, tier):
     chk.add_mc("MC_DD.cfg", r, constants=f"Widths = {{1,2,3}} Cuts = {{lel, fc}}; {len(insts)} generated instances (n <= 4, <= 4 base states / capacity <= 9), every reachable exact root, 3 types, 4 incumbents")
 
 
-def dd_model_conformance(chk, w, tier):
+def dd_model_conformance(chk, w, tier, module="DD", cfg="MC_DD_emit.cfg", insts_file="mc_dd_insts.json", force_cut=None, tagname="dd_model"):
     """spec -> impl for the diagram model: TLC enumerates every (input, outcome) pair of DD.tla (all tie-breaks); the real Mdd<LEL>/Mdd<FRONTIER>
     compile the same inputs; each real outcome must be among the model's outcomes for that input. A mismatch is a divergence between model
     and code (reported, counted) -- the verdicts of C06-C08 come from the contract, which both must satisfy."""
     import re as _re
-    f = os.path.join(w, "mc_dd_insts.json")
+    f = os.path.join(w, insts_file)
     insts = json.load(open(f))[:4 if tier == "quick" else 12]
-    f2 = os.path.join(w, "mc_dd_emit_insts.json")
+    f2 = os.path.join(w, tagname + "_emit_insts.json")
     json.dump(insts, open(f2, "w"))
-    r = tlc("DD", "MC_DD_emit.cfg", env={"INSTS": f2}, workers=4, timeout=3600, heap="6g")
+    r = tlc(module, cfg, env={"INSTS": f2}, workers=4, timeout=3600, heap="6g")
     if "No error has been found" not in r["out"]:
         log(r["out"][-2000:])
-        raise ToolError("MC_DD_emit failed")
+        raise ToolError(f"{cfg} failed")
     outs = [json.loads(bytes(x, "utf-8").decode("unicode_escape")) for x in _re.findall(r'<<"OUT", "(.*)">>', r["out"])]
     by = {}
     for o in outs:
@@ -116,8 +116,8 @@ def dd_model_conformance(chk, w, tier):
     inputs = []
     for k in keys:
         ii, cut, ty, width, lb, root = json.loads(k)
-        inputs.append({"inst": insts[ii - 1], "cut": cut, "type": ty, "width": width, "lb": lb, "root": root})
-    fi, fo = os.path.join(w, "dd_inputs.json"), os.path.join(w, "dd_outcomes.json")
+        inputs.append({"inst": insts[ii - 1], "cut": force_cut or cut, "type": ty, "width": width, "lb": lb, "root": root})
+    fi, fo = os.path.join(w, tagname + "_inputs.json"), os.path.join(w, tagname + "_outcomes.json")
     json.dump(inputs, open(fi, "w"))
     run_bin("dd", ["--inputs", fi, "--out", fo])
     real = json.load(open(fo))
@@ -128,13 +128,29 @@ def dd_model_conformance(chk, w, tier):
             match += 1
         else:
             miss.append({"input": json.loads(k), "real": json.loads(o2), "model": [json.loads(x) for x in by[k]][:3]})
-    chk.cov["dd_model_inputs_replayed_on_real_compilers"] = len(keys)
-    chk.cov["dd_model_outcome_sets_containing_the_real_outcome"] = match
-    chk.cov["dd_model_mismatches"] = miss[:5]
+    chk.cov[tagname + "_inputs_replayed_on_real_compilers"] = len(keys)
+    chk.cov[tagname + "_outcome_sets_containing_the_real_outcome"] = match
+    chk.cov[tagname + "_mismatches"] = miss[:5]
     chk.cov["divergences"] += len(miss)
     for m in miss[:3]:
         log(f"  divergence (no verdict): real compiler outcome not among DD.tla's outcomes: {json.dumps(m)[:700]}")
-    chk.add_mc("MC_DD_emit.cfg", r, constants=f"Widths = {{1,2}} Cuts = {{lel, fc}}; {len(insts)} instances; {len(outs)} (input, outcome) pairs emitted")
+    chk.add_mc(cfg, r, constants=f"Widths = {{1,2}}; {len(insts)} instances; {len(outs)} (input, outcome) pairs emitted")
+
+
+def mc_ddpooled_part(chk, w, tier):
+    """pooled.rs on the specification (DDPooled.tla, long-arc models): contract except the known finding D5, which is reproduced on the model"""
+    thorough = tier == "thorough"
+    tr = os.path.join(w, "mc_pooled_insts.ndjson")
+    run_bin("dd", ["--seed", SEED * 1000 + 98, "--instances", 200 if not thorough else 800, "--per-instance", 1, "--family", "longarc", "--dd", "pooled", "--out", tr])
+    insts = [e["inst"] for e in read_ndjson(tr) if e["ev"] == "reset" and e["inst"]["family"] == "lifted" and e["inst"]["n"] <= 5 and e["inst"]["b"] <= 3]
+    insts = insts[: (12 if not thorough else 60)]
+    f = os.path.join(w, "mc_pooled_insts.json")
+    json.dump(insts, open(f, "w"))
+    r = mc("DDPooled", "MC_DDPooled.cfg", workers=8, env={"INSTS": f}, timeout=3600, require_actions=False)
+    chk.add_mc("MC_DDPooled.cfg", r, constants=f"Widths = {{1,2}}; {len(insts)} depth-free long-arc instances (n <= 5, <= 3 base states); ContractButD5, C13_Width, C12_Arcs")
+    if chk.pid == "C08":
+        r2 = tlc("DDPooled", "MC_DDPooled_D5.cfg", env={"INSTS": f}, workers=4, timeout=1800)
+        chk.cov["known_finding_D5_reproduced_on_the_specification"] = "C08_Progress is violated" in r2["out"] or bool(r2["violated"])
 
 
 def make(pid, fams):
@@ -156,8 +172,10 @@ def make(pid, fams):
             chk.cov.update({"evaluations": 400, "distinct_nontrivial": 2, "samples": [evs[1]]})
             return chk.finish()
         mc_dd_part(chk, w, tier)
+        mc_ddpooled_part(chk, w, tier)
         if pid == "C06":
             dd_model_conformance(chk, w, tier)
+            dd_model_conformance(chk, w, tier, module="DDPooled", cfg="MC_DDPooled_emit.cfg", insts_file="mc_pooled_insts.json", force_cut="pooled", tagname="ddpooled_model")
         dd_runs(chk, w, tier, fams)
         evs = read_ndjson(os.path.join(w, f"dd_{fams[0]}_0.ndjson"))
         k = next(i for i, e in enumerate(evs) if e["ev"] == "compiled" and e.get("ok") and not e["exact"])
